@@ -11,6 +11,7 @@ pub use hooks::{verif_hooks, verif_shim};
 mod eng;
 mod families;
 mod monitors;
+mod ops;
 mod refchess;
 mod report;
 mod seefam;
